@@ -93,6 +93,13 @@ def gen_recipe(rng, vals):
             c["v"] = rng.choice([2**53 + 1, 9007199254740993, -(2**53) - 1, 2**64 + 1, 12345678901234567891, 10**30 + 7])
         if cells:
             flags.add("big-int")
+    if rng.random() < 0.25:
+        # text a CSV writer has to quote: line breaks inside the cell, the delimiter, quotes
+        cells = [c for r in rows for c in r["cells"] if c["v"] is not None]
+        for c in rng.sample(cells, min(len(cells), 2)):
+            c["v"] = rng.choice(["first line\nsecond line", "a,b;c", 'say "hi"', "multi\n\nline\ntext", "trailing,"])
+        if cells:
+            flags.add("quoted-text")
     return {"cols": cols, "rows": rows}, flags
 
 
@@ -330,7 +337,10 @@ def apply_and_judge(t, op, before: Snap):
         if before.spans or before.covered or before.W < 2 or before.H < 1 or not before.vals:
             return out, "skipped", None
         text = t.to_csv()
-        t2 = import_from_csv(io.StringIO(text), "imported")
+        quoted = any(isinstance(v, str) and any(ch in v for ch in '\n,;"') for v in before.vals.values())
+        # "CSV format can be autodetected to a certain limit": with text the writer had to quote, the dialect
+        # that to_csv used is stated instead of sniffed
+        t2 = import_from_csv(io.StringIO(text), "imported", delimiter=",", quotechar='"') if quoted else import_from_csv(io.StringIO(text), "imported")
         b = Snap(t2)
         norm = {k: (v.strip() if isinstance(v, str) else v) for k, v in before.vals.items()}
         norm = {k: v for k, v in norm.items() if v != ""}
